@@ -397,6 +397,7 @@ def not_started_at_waits(v: View) -> List[tuple]:
     out = []
     mc = v.prog.mc
     dispatched: Dict[str, int] = {}
+    submitted: Set[str] = set()
     entered: Set[str] = set()
     exited: Set[str] = set()
     for t, e in enumerate(v.trace):
@@ -405,18 +406,24 @@ def not_started_at_waits(v: View) -> List[tuple]:
             dispatched[e[1]] = t
         elif k == "submit" and e[1] is not None:
             dispatched.setdefault(e[1], t)
+            submitted.add(e[1])
         elif k == "enter":
             entered.add(e[1])
         elif k == "exit":
             exited.add(e[1])
         elif k == "wait" and e[3] and not e[4]:
             running = [x for x in dispatched if x in entered and x not in exited]
-            waiting = [x for x in dispatched if x not in entered]
-            if waiting and len(running) < mc:
-                # an asyncio-future wait gives pending tasks their turn before anything is chosen: only thread waits block the loop
-                if e[1] == "t" or all(x in {y for y in e[3]} for x in waiting) is False:
-                    if e[1] == "t":
-                        out.append((t, waiting[0], e[1]))
+            if len(running) >= mc:
+                continue
+            if e[1] == "t":
+                # a thread-future wait blocks the loop thread: a task that never got a turn of the loop cannot start any more
+                waiting = [x for x in dispatched if x not in entered]
+            else:
+                # an asyncio-future wait gives pending tasks their turn; whatever has reached a pool by then and is still
+                # not running sits in the queue of a pool that has fewer workers than the concurrency limit
+                waiting = [x for x in submitted if x not in entered]
+            if waiting:
+                out.append((t, waiting[0], e[1]))
     return out
 
 
